@@ -164,27 +164,37 @@ theorem wt_noDead (vtys : List CSem.Ty) (ret : CSem.Ty) (st : Stmt) : ∀ (lb lc
     statement lemmas decompose), nothing being required when `P` is empty; and the array statements agree
     with the layout `cnts` (`CSem2.arrsOK`). -/
 def frag (P : List CSem2.Func) (cnts : List Nat) : Stmt → Bool
-  | .skip | .decl .. | .assign .. | .incdec .. | .expr _ | .ret _ | .break_ | .continue_ => true
+  | .decl _ _ (some e) | .assign _ _ e | .expr e | .ret e => (P.isEmpty || e.callsOK P) && e.arrsOK cnts
+  | .skip | .decl _ _ none | .incdec .. | .break_ | .continue_ => true
   | .seq a b => frag P cnts a && frag P cnts b
-  | .ite _ a => frag P cnts a
-  | .itee _ a b => frag P cnts a && frag P cnts b
-  | .while_ _ b => frag P cnts b
-  | .dowhile b _ => frag P cnts b
-  | .for_ _ st b => frag P cnts st && frag P cnts b
+  | .ite c a => ((P.isEmpty || c.callsOK P) && c.arrsOK cnts) && frag P cnts a
+  | .itee c a b => ((P.isEmpty || c.callsOK P) && c.arrsOK cnts) && (frag P cnts a && frag P cnts b)
+  | .while_ c b => ((P.isEmpty || c.callsOK P) && c.arrsOK cnts) && frag P cnts b
+  | .dowhile b c => ((P.isEmpty || c.callsOK P) && c.arrsOK cnts) && frag P cnts b
+  | .for_ none st b => frag P cnts st && frag P cnts b
+  | .for_ (some c) st b => ((P.isEmpty || c.callsOK P) && c.arrsOK cnts) && (frag P cnts st && frag P cnts b)
   | .case_ _ | .default_ => true
-  | .switch_ _ b => frag P cnts b
+  | .switch_ e b => ((P.isEmpty || e.callsOK P) && e.arrsOK cnts) && frag P cnts b
   | .call dst rt fn args => P.isEmpty || callsOK P (.call dst rt fn args)
   | .adecl i t n xb => arrsOK cnts (.adecl i t n xb)
   | .aload d dt a t n xb x => arrsOK cnts (.aload d dt a t n xb x)
-  | .astore a t n xb x v => arrsOK cnts (.astore a t n xb x v)
+  | .astore a t n xb x v =>
+    (decide (1 ≤ n) && decide (cnts[a]? = some n) && decide (xb = xbase cnts a)) &&
+      ((P.isEmpty || v.callsOK P) && v.arrsOK cnts)
 
 theorem frag_of_callsOK (P : List CSem2.Func) (cnts : List Nat) (st : Stmt) (h : callsOK P st = true)
     (ha : arrsOK cnts st = true) : frag P cnts st = true := by
-  induction st <;> simp_all [frag, callsOK, arrsOK]
+  induction st with
+  | decl i t init => cases init <;> simp_all [frag, callsOK, arrsOK]
+  | for_ c st b ihs ihb => cases c <;> simp_all [frag, callsOK, arrsOK]
+  | _ => simp_all [frag, callsOK, arrsOK]
 
 /-- in a single function (`P = []`) no call is ever executed: nothing is required of it -/
 theorem frag_nil (cnts : List Nat) (st : Stmt) (ha : arrsOK cnts st = true) : frag [] cnts st = true := by
-  induction st <;> simp_all [frag, arrsOK]
+  induction st with
+  | decl i t init => cases init <;> simp_all [frag, arrsOK]
+  | for_ c st b ihs ihb => cases c <;> simp_all [frag, arrsOK]
+  | _ => simp_all [frag, arrsOK]
 
 /-- Executions of at most `fuel` are simulated (see `Post`). -/
 def SimStmt (T : Stat) (fuel : Nat) : Prop :=
@@ -268,48 +278,6 @@ theorem sim_label (n : Nat) (st : Stmt) (hst : (∃ u, st = .case_ u) ∨ st = .
       rw [hits]; simp
     exact ⟨rfl, 1, env, M, Reach.one (step_fall_item T hits' env M), inv⟩
 
-theorem sim_exprstmt (n : Nat) (e : Expr) (hex : exec T.S.cs T.P (n + 1) s (.expr e) = some out)
-    (hwt : Stmt.wt T.vtys T.ret lp.1 lp.2 nd (.expr e) = some nd') (hp : Pos T c nd pre)
-    (hext : Ext T (funcstmt T.S.cs brk cont (.expr e) c).ctx)
-    (hits : T.S.its = pre ++ (funcstmt T.S.cs brk cont (.expr e) c).items ++ post)
-    (inv : SInv T.M0 T.S.cs T.cnts T.σ T.vtys s env M) :
-    Post T lp brk cont (T.at env M pre) (pre ++ (funcstmt T.S.cs brk cont (.expr e) c).items)
-      (funcstmt T.S.cs brk cont (.expr e) c).ctx out := by
-  simp only [exec, Option.map_eq_some_iff] at hex
-  obtain ⟨v, hev, rfl⟩ := hex
-  simp only [Stmt.wt] at hwt
-  split at hwt
-  · rename_i hw
-    simp only [funcstmt, lowerE_eq T.S.cs hp.jump] at hext hits ⊢
-    obtain ⟨k, env', r, hreach, inv', _, _, _⟩ := sim_exprOut T hp e hext hw hev hits inv
-    exact ⟨hp.jump, k, env', M, hreach, inv'⟩
-  · cases hwt
-
-theorem sim_ret (n : Nat) (e : Expr) (hex : exec T.S.cs T.P (n + 1) s (.ret e) = some out)
-    (hwt : Stmt.wt T.vtys T.ret lp.1 lp.2 nd (.ret e) = some nd') (hp : Pos T c nd pre)
-    (hext : Ext T (funcstmt T.S.cs brk cont (.ret e) c).ctx)
-    (hits : T.S.its = pre ++ (funcstmt T.S.cs brk cont (.ret e) c).items ++ post)
-    (inv : SInv T.M0 T.S.cs T.cnts T.σ T.vtys s env M) :
-    Post T lp brk cont (T.at env M pre) (pre ++ (funcstmt T.S.cs brk cont (.ret e) c).items)
-      (funcstmt T.S.cs brk cont (.ret e) c).ctx out := by
-  simp only [exec, Option.map_eq_some_iff] at hex
-  obtain ⟨v, hev, rfl⟩ := hex
-  simp only [Stmt.wt] at hwt
-  split at hwt
-  · rename_i hw
-    simp only [funcstmt, lowerE_eq T.S.cs hp.jump] at hext hits ⊢
-    have hext' : Ext T (c.upd (exprOut T.S.cs c e).ctx) := hext
-    obtain ⟨k, env', r, hreach, inv', _, hval, hrep⟩ := sim_exprOut T hp e hext' hw.2 hev hits inv
-    rw [hw.1] at hrep
-    have hrange : ∀ (i : Nat) (t : CSem.Ty) (v' : Int), (T.vtys.take nd)[i]? = some t →
-        s[i]? = some (some v') → InRange (t.intTy T.S.cs) v' :=
-      fun i t v' ht hv' => inv.range i t v' (take_sub ht).1 hv'
-    have hrg := evalE_inRange T.S.cs (T.vtys.take nd) s hrange e v hw.2 hev
-    rw [hw.1] at hrg
-    refine ⟨hrg, k, Or.inl ⟨env', M, (exprOut T.S.cs c e).val, r, ?_, hreach, hval, hrep, inv'.a.popTo⟩⟩
-    simp only [setJump_jump, upd_jump, hp.jump, Option.getD_none]
-  · cases hwt
-
 theorem sim_decl_none (n : Nat) (i : Nat) (t : CSem.Ty)
     (hex : exec T.S.cs T.P (n + 1) s (.decl i t none) = some out) (hp : Pos T c nd pre)
     (inv : SInv T.M0 T.S.cs T.cnts T.σ T.vtys s env M) :
@@ -331,100 +299,6 @@ theorem sim_store (k : Nat) (t : CSem.Ty) (val : Val) (slot : Nat) {pos : List I
   obtain ⟨a, M', h1, h2, h3⟩ := inv.store hkt hv (storeVal_of_rep hr)
   rw [hslot] at h1
   exact ⟨M', run_nores T hits (readVals_two hval (readVal_tmp h1)) h2, h3⟩
-
-theorem sim_assign (n : Nat) (i : Nat) (t : CSem.Ty) (e : Expr)
-    (hex : exec T.S.cs T.P (n + 1) s (.assign i t e) = some out)
-    (hwt : Stmt.wt T.vtys T.ret lp.1 lp.2 nd (.assign i t e) = some nd') (hp : Pos T c nd pre)
-    (hext : Ext T (funcstmt T.S.cs brk cont (.assign i t e) c).ctx)
-    (hits : T.S.its = pre ++ (funcstmt T.S.cs brk cont (.assign i t e) c).items ++ post)
-    (inv : SInv T.M0 T.S.cs T.cnts T.σ T.vtys s env M) :
-    Post T lp brk cont (T.at env M pre) (pre ++ (funcstmt T.S.cs brk cont (.assign i t e) c).items)
-      (funcstmt T.S.cs brk cont (.assign i t e) c).ctx out := by
-  simp only [exec, Option.map_eq_some_iff] at hex
-  obtain ⟨v, hev, rfl⟩ := hex
-  simp only [Stmt.wt] at hwt
-  split at hwt
-  · rename_i hw
-    obtain ⟨hi, hkt, hty, hwe⟩ := hw
-    simp only [funcstmt, lowerE_eq T.S.cs hp.jump] at hext hits ⊢
-    have hext' : Ext T (c.upd (exprOut T.S.cs c e).ctx) := hext
-    have hits1 : T.S.its = pre ++ (exprOut T.S.cs c e).items ++
-        (storeIns t (exprOut T.S.cs c e).val (c.slots.getD i 0) :: post) := by
-      rw [hits]; simp only [List.append_assoc, List.singleton_append]
-    obtain ⟨k, env', r, hreach, inv', _, hval, hrep⟩ := sim_exprOut T hp e hext' hwe hev hits1 inv
-    rw [hty] at hrep
-    have hrange := evalE_inRange T.S.cs (T.vtys.take nd) s
-      (fun j t' v' ht hv' => inv.range j t' v' (take_sub ht).1 hv') e v hwe hev
-    rw [hty] at hrange
-    have hslot : T.σ.getD i 0 = c.slots.getD i 0 := hext'.1 i (by
-      show i < c.slots.length; rw [hp.nslots]; exact hi)
-    obtain ⟨M', hr2, inv2⟩ := sim_store T i t _ _ hits1 hslot hkt hval hrange hrep inv'
-    refine ⟨hp.jump, k + 1, env', M', ?_, inv2⟩
-    rw [← List.append_assoc]
-    exact hreach.trans hr2
-  · cases hwt
-
-theorem sim_decl_init (n : Nat) (i : Nat) (t : CSem.Ty) (e : Expr)
-    (hex : exec T.S.cs T.P (n + 1) s (.decl i t (some e)) = some out)
-    (hwt : Stmt.wt T.vtys T.ret lp.1 lp.2 nd (.decl i t (some e)) = some nd') (hp : Pos T c nd pre)
-    (hext : Ext T (funcstmt T.S.cs brk cont (.decl i t (some e)) c).ctx)
-    (hits : T.S.its = pre ++ (funcstmt T.S.cs brk cont (.decl i t (some e)) c).items ++ post)
-    (inv : SInv T.M0 T.S.cs T.cnts T.σ T.vtys s env M) :
-    Post T lp brk cont (T.at env M pre) (pre ++ (funcstmt T.S.cs brk cont (.decl i t (some e)) c).items)
-      (funcstmt T.S.cs brk cont (.decl i t (some e)) c).ctx out := by
-  simp only [exec, Option.map_eq_some_iff] at hex
-  obtain ⟨v, hev, rfl⟩ := hex
-  simp only [Stmt.wt] at hwt
-  split at hwt
-  · rename_i hw
-    obtain ⟨hi, hkt, hwe⟩ := hw
-    subst hi
-    simp only [optWt, Bool.and_eq_true, beq_iff_eq] at hwe
-    obtain ⟨hty, hwe⟩ := hwe
-    -- the context after `funcalloc`
-    have hj1 : (⟨c.lastid + 1, c.blockid, c.cur, c.jump, c.slots ++ [c.lastid + 1]⟩ : SCtx).jump = none :=
-      hp.jump
-    have hp1 : Pos T ⟨c.lastid + 1, c.blockid, c.cur, c.jump, c.slots ++ [c.lastid + 1]⟩ (i + 1) pre := by
-      refine ⟨hp.jump, hp.cur, ?_, by simp [hp.nslots], ?_⟩
-      · obtain ⟨name, j, h1, h2⟩ := hp.curOK
-        exact ⟨name, j, h1, h2⟩
-      · intro j hj
-        show (c.slots ++ [c.lastid + 1]).getD j 0 ≤ c.lastid + 1
-        by_cases hji : j < i
-        · rw [getD_append_left _ _ (by rw [hp.nslots]; exact hji)]
-          have := hp.le j hji; omega
-        · rw [getD_append_right _ _ (by rw [hp.nslots]; omega)]
-          have : j - c.slots.length = 0 := by rw [hp.nslots]; omega
-          rw [this]; simp
-    simp only [funcstmt, lowerE_eq T.S.cs hj1] at hext hits ⊢
-    generalize hc1 : (⟨c.lastid + 1, c.blockid, c.cur, c.jump, c.slots ++ [c.lastid + 1]⟩ : SCtx) = c1
-      at hext hits hp1 ⊢
-    have hext' : Ext T (c1.upd (exprOut T.S.cs c1 e).ctx) := hext
-    have hits1 : T.S.its = pre ++ (exprOut T.S.cs c1 e).items ++
-        (storeIns t (exprOut T.S.cs c1 e).val (c.lastid + 1) :: post) := by
-      rw [hits]; simp only [List.append_assoc, List.singleton_append]
-    obtain ⟨k, env', r, hreach, inv', _, hval, hrep⟩ := sim_exprOut T hp1 e hext' hwe hev hits1
-      (inv.forget i)
-    rw [hty] at hrep
-    have hrange := evalE_inRange T.S.cs (T.vtys.take (i + 1)) (s.set i none)
-      (fun j t' v' ht hv' => (inv.forget i).range j t' v' (take_sub ht).1 hv') e v hwe hev
-    rw [hty] at hrange
-    have hslot : T.σ.getD i 0 = c.lastid + 1 := by
-      rw [hext'.1 i (by show i < c1.slots.length; rw [← hc1]; simp [hp.nslots])]
-      show c1.slots.getD i 0 = _
-      rw [← hc1]
-      show (c.slots ++ [c.lastid + 1]).getD i 0 = _
-      rw [getD_append_right _ _ (by rw [hp.nslots]; exact Nat.le_refl _)]
-      have : i - c.slots.length = 0 := by rw [hp.nslots]; omega
-      rw [this]; simp
-    obtain ⟨M', hr2, inv2⟩ := sim_store T i t _ _ hits1 hslot hkt hval hrange hrep inv'
-    refine ⟨by show c1.jump = none; rw [← hc1]; exact hp.jump, k + 1, env', M', ?_, ?_⟩
-    · rw [← List.append_assoc]
-      exact hreach.trans hr2
-    · have : (s.set i none).set i (some v) = s.set i (some v) := by simp
-      rw [this] at inv2
-      exact inv2
-  · cases hwt
 
 end Leaves
 
